@@ -68,7 +68,7 @@ def run(tier, seed, replay):
     exps = [c for c in cases if c.get("kind") == "exps"][0]["exps"]
     runs = [c for c in cases if c.get("kind") != "exps"]
     rng = random.Random(seed)
-    sample = rng.sample(runs, min(len(runs), 160 if tier == "quick" else 1200))
+    sample = rng.sample(runs, min(len(runs), 140 if tier == "quick" else 1200)) + [c for c in runs if c["p"] == 6 and c["bd"]["di1"] != 0][:40]
     d = os.path.join(vlib.WORK, "cli")
     os.makedirs(d, exist_ok=True)
     files = {}
@@ -91,6 +91,12 @@ def run(tier, seed, replay):
             args += ["--reset", str(t)]
         for name, val in zip(["--fc", "--fd", "--fe", "--ff"], c["inr"]):
             args += [name, spell(val, radix)]
+        b = c.get("bd")
+        if b:
+            args += ["--di1", spell(b["di1"], radix), "--temp", "%.3f" % (b["temp"] / 1000.0), "--ai1", "%.3f" % (b["ai1"] / 1000.0), "--ai2", "%.3f" % (b["ai2"] / 1000.0)]
+            for flag in ("j1", "j2", "uio1", "uio2", "uio3"):
+                if b[flag]:
+                    args.append("--" + flag)
         stated = e["st"] != "none" or e["fe"] >= 0 or e["ff"] >= 0
         if stated:
             args.append("verify")
@@ -128,8 +134,8 @@ def run(tier, seed, replay):
         "states": r.distinct, "transitions": r.generated, "traces_validated_against_impl": res["cases"] + ncli,
         "samples": [{k: runs[len(runs) // 3][k] for k in ("p", "n", "ints", "resets", "inr", "cycles", "st", "fe", "ff")}],
         "configurations_replayed_in_library": res["cases"], "verify_outcomes_compared": res["verifications"], "cli_invocations": ncli, "exhaustive": False,
-        "rule": "TLC runs Runner.tla (composed with Machine/Micro.tla) on 5 programs x budgets (incl. 0) x interrupt / reset cycle sets (cycle 0, N-1, N, "
-                "beyond the end) x 2 input configurations, checks CyclesOk and the consistency of the verification rule over 64 expectation sets, and prints "
+        "rule": "TLC runs Runner.tla (composed with Machine/Micro.tla) on 6 programs x budgets (incl. 0) x interrupt / reset cycle sets (cycle 0, N-1, N, "
+                "beyond the end) x 2 input configurations (+ 3 board configurations given through --di1/--temp/--ai1/--ai2/--j1/--j2/--uio1-3 for the program that copies the board's input port and status register to the outputs), checks CyclesOk and the consistency of the verification rule over 64 expectation sets, and prints "
                 "final machine, cycle count and all 64 outcomes; the harness runs the real RunnerConfig::run + verify on every configuration (full machine "
                 "projection incl. private fields) and the real command-line tool on a sample with inputs in all three radices, comparing printed "
                 "State/FE/FF/Cycles and the exit status, plus unreadable / unparsable files",
